@@ -44,6 +44,7 @@ def jobs(tier):
     for sh in ("nested+env", "cfglist+env"):
         for leaf in (b["leaves"] if tier == "thorough" else ["int09", "str-norm", "bool", "list-int", "dict-typed", "int-cd"]):
             out.append({"name": "%s/%s" % (sh, leaf), "shape": sh, "leaf": leaf, "depth": b["depth"], "tier": tier})
+    out.append({"name": "env-built", "kind": "envbuilt"})
     return out
 
 
@@ -251,8 +252,88 @@ class Monitor:
                 self.bad(ctx, "other-mark-moved", "after %s, %s changed the user-defined status of %s" % (hist, op, stray), hist, op)
 
 
+ENV_KINDS = {
+    "int": (lambda cc, **kw: cc.IntField(min=0, max=99, default=1, **kw), "42", 42, 7, "not-a-number"),
+    "str": (lambda cc, **kw: cc.StringField(transform_case="lower", default="dflt", **kw), "FROM-ENV", "from-env", "assigned", 5),
+    "bool": (lambda cc, **kw: cc.BoolField(default=False, **kw), "yes", True, False, "maybe"),
+    "float": (lambda cc, **kw: cc.FloatField(default=0.5, **kw), "2.5", 2.5, 1.25, "x"),
+    "nodefault": (lambda cc, **kw: cc.IntField(**kw), "3", 3, 4, "x"),
+}
+
+
+def _envbuilt(job, ctx):
+    """fields whose value comes from a bound, non-empty environment variable when the configuration is built: they hold the
+    validated variable, are *not* user-defined (nothing was assigned or loaded), become user-defined on assignment, and a
+    reset brings the variable's value and the not-user-defined status back; rejected assignments change nothing"""
+    import os
+    import cincoconfig as cc
+    only = job.get("only")
+    for kind, (mk, raw, val, assign, bad) in ENV_KINDS.items():
+        for binding in ("prefix", "named"):
+            for pos in ("f", "sub.f", "sub.deep.f"):
+                ident = [kind, binding, pos]
+                if only is not None and only != ident:
+                    continue
+                s = cc.Schema(env="C12ENV") if binding == "prefix" else cc.Schema()
+                fields = {}
+                for p in ("f", "sub.f", "sub.deep.f"):
+                    fields[p] = mk(cc, **({"env": "C12NAMED_" + p.replace(".", "_").upper()} if binding == "named" else {}))
+                    s[p] = fields[p]
+                s.other = cc.IntField(default=9, env=False)
+                name = fields[pos].env
+                for k in [k for k in os.environ if k.startswith("C12")]:
+                    del os.environ[k]
+                os.environ[name] = raw
+                case = {"kind": "envbuilt", "jobparams_full": {k: v for k, v in job.items() if k not in ("single", "only")}, "only": ident, "job": job["name"]}
+                fp = "C12|env-built|%s|%s|" % (kind, binding)
+
+                def bad_(what, msg, case=case, fp=fp, pos=pos, name=name, raw=raw):
+                    ctx.violation(fp + what, "field %s bound to %s=%r: %s" % (pos, name, raw, msg), case)
+                try:
+                    cfg = s()
+                    owner = W.chained(cfg, pos.rsplit(".", 1)[0]) if "." in pos else cfg
+                    steps = []
+                    steps.append(("fresh", owner.f, cc.is_value_defined(cfg, pos)))
+                    try:
+                        owner.f = bad
+                        steps.append(("rejected-not-raised", owner.f, None))
+                    except Exception:  # noqa
+                        steps.append(("after-rejected", owner.f, cc.is_value_defined(cfg, pos)))
+                    owner.f = assign
+                    steps.append(("assigned", owner.f, cc.is_value_defined(cfg, pos)))
+                    cc.reset_value(cfg, pos)
+                    steps.append(("reset", owner.f, cc.is_value_defined(cfg, pos)))
+                    others = [cc.is_value_defined(cfg, p) for p in ("f", "sub.f", "sub.deep.f", "other") if p != pos]
+                except Exception as exc:  # noqa
+                    ctx.case(("envbuilt",) + tuple(ident), "envbuilt:raises", True)
+                    bad_("raises", "the sequence build / rejected assignment / assignment / reset raised %r" % (exc,))
+                    continue
+                finally:
+                    os.environ.pop(name, None)
+                ctx.transitions += 4
+                ctx.case(("envbuilt",) + tuple(ident), "envbuilt:%s:%s" % (kind, binding), True)
+                want = {"fresh": (val, False), "after-rejected": (val, False), "assigned": (assign, True), "reset": (val, False)}
+                for step, got_v, got_d in steps:
+                    if step not in want:
+                        bad_("invalid-accepted", "an invalid value was accepted")
+                        continue
+                    if V.canon(got_v) != V.canon(want[step][0]):
+                        bad_("value|" + step, "%s: the field reads %r, expected %r" % (step, got_v, want[step][0]))
+                    if got_d is not want[step][1]:
+                        bad_("status|" + step, "%s: is_value_defined is %r, expected %r" % (step, got_d, want[step][1]))
+                if any(others):
+                    bad_("other-status", "another field counts as user-defined: %s" % (others,))
+    ctx.traces += 1
+    ctx.sample({"env_built": list(ENV_KINDS)})
+
+
 def run_job(job, ctx):
     single = job.get("single")
+    if single and single.get("kind") == "envbuilt":
+        j = dict(single["jobparams_full"]); j["only"] = single["only"]
+        return _envbuilt(j, ctx)
+    if job.get("kind") == "envbuilt":
+        return _envbuilt(job, ctx)
     if single:
         m = Monitor(single["shape"], single["leaf"], single.get("tier", "quick"))
         W.explore(ctx, m.spec, single["leaf"], 0, m, only=(single["hist"], single["op"]))
